@@ -21,6 +21,15 @@ ALGS = [(0, lambda: BordaCount(), True), (1, lambda: BordaCount(use_bucket_id=Tr
         (10, lambda: ExactAlgorithm(), False), (11, lambda: ExactAlgorithmPulp(), False), (12, lambda: ExactAlgorithm(optimize=False), False)]
 
 
+FINE = 2 ** 20   # a finer dyadic grid for penalties such as 0.5 + 2^-17 (scores stay exact in floating point)
+
+
+def scheme_term_scaled(pen, scale):
+    vals = [x * scale for x in pen[0]] + [x * scale for x in pen[1]]
+    assert all(float(v).is_integer() for v in vals), pen
+    return "(mkS " + " ".join(z(int(v)) for v in vals) + ")"
+
+
 class Scores(Suite):
     name = "scores"
     imports = ["Scheme", "Rank", "KemenyImpl", "Judge.JC04"]
@@ -41,6 +50,18 @@ class Scores(Suite):
             n = rng.randint(1, 6)
             D = [gen.random_ranking(rng, list(range(n)), 1.0, rng.choice([1.0, 0.6, 0.3])) for _ in range(rng.randint(1, 5))]
             cases.append({"s": opt_scheme(rng), "D": D, "one": rng.random() < 0.5})
+        # penalties on a fine dyadic grid: scores of different rankings may differ by ~1e-5 only
+        for _ in range(50 if tier == "quick" else 600):
+            eps = rng.choice([2.0 ** -17, 2.0 ** -16, 2.0 ** -18])
+            p = rng.choice([0.5, 1.0]) + eps
+            s = [[0.0, 1.0, p, 0.0, 1.0, p], [p, p, 0.0, p, p, 0.0]]
+            n = rng.randint(2, 5)
+            D = [gen.random_ranking(rng, list(range(n)), rng.choice([1.0, 1.0, 0.7]), rng.choice([1.0, 0.7])) for _ in range(rng.randint(2, 5))]
+            if not any(D):
+                D[0] = [[0]]
+            cases.append({"s": s, "D": D, "one": rng.random() < 0.5, "scale": FINE})
+        cases.append({"s": [[0.0, 1.0, 0.5 + 2.0 ** -17, 0.0, 1.0, 0.5 + 2.0 ** -17], [0.5 + 2.0 ** -17] * 2 + [0.0] + [0.5 + 2.0 ** -17] * 2 + [0.0]],
+                      "D": [[[1], [2]], [[2], [1]]], "one": False, "scale": FINE})
         return cases
 
     def run(self, case):
@@ -66,10 +87,11 @@ class Scores(Suite):
             except Exception:
                 desc_ok = False
             u = None
+            scale = case.get("scale", ONE)
             if v is not None and feat == v and desc_ok:
                 fv = float(v)
-                if abs(fv * ONE - round(fv * ONE)) < 1e-6 * ONE:     # the property's own 1e-6 tolerance (solver objective)
-                    u = int(round(fv * ONE))
+                if abs(fv * scale - round(fv * scale)) < max(1e-6 * scale, 0.5):     # the property's own 1e-6 tolerance (solver objective)
+                    u = int(round(fv * scale))
             out["runs"].append({"id": aid, "cons": [lst(r) for r in cons.consensus_rankings], "score": u, "lazy": bool(was_absent),
                                 "raw": None if v is None else float(v)})
         return out
@@ -81,7 +103,8 @@ class Scores(Suite):
                 runs.append(f"(mkSC {nat(r['id'])} [] None false)")
             else:
                 runs.append(f"(mkSC {nat(r['id'])} {clist([ranking_term(c) for c in r['cons']])} {copt(r['score'], z)} {cbool(r['lazy'])})")
-        return f"({scheme_term(case['s'])}, {dataset_term(out['D'])}, {clist(runs)})"
+        st = scheme_term_scaled(case["s"], case["scale"]) if "scale" in case else scheme_term(case["s"])
+        return f"({st}, {dataset_term(out['D'])}, {clist(runs)})"
 
     def nontrivial(self, case, out):
         return len({e for r in out["D"] for b in r for e in b}) >= 2
@@ -99,5 +122,5 @@ if __name__ == "__main__":
          level_note="see MANIFEST",
          rule="13 algorithm configurations (Borda x2, Copeland, KwikSort, PickAPerm, BioConsert, BioCo, BioConsert with two starters, ParCons "
               "x2, exact selector x2, free-solver model) on incomplete datasets under the unifying family (accepted by all) and on complete "
-              "datasets under arbitrary valid schemes, both values of return_at_most_one_ranking; kemeny_score, features[KEMENY_SCORE] and "
+              "datasets under arbitrary valid schemes, both values of return_at_most_one_ranking, plus unifying schemes on a 2^-20 dyadic grid (tie penalty 0.5 + 2^-17 etc.: distinct scores only ~1e-5 apart); kemeny_score, features[KEMENY_SCORE] and "
               "description() are read; the score must equal kemeny_spec of EVERY returned ranking. non-trivial = >= 2 elements")
